@@ -8,6 +8,17 @@ import ast
 _state = {}
 
 
+class _Boom:
+    """a captured settings object whose attribute lookup raises something else than AttributeError"""
+
+    @property
+    def cut(self):
+        raise RuntimeError("settings not loaded")
+
+
+BOOM = _Boom()
+
+
 def _setup():
     from typing import Iterable
 
@@ -53,7 +64,25 @@ def _setup():
     PDC = dataclasses.make_dataclass("PDC", [("a", float), ("b", float)])
     dc_tree = p("lambda e: e.jets.Select(lambda j: e.trks.Select(lambda t: DC(j.pt, nosuch=t.pt)))")
     dc_tree.body.args[0].body.args[0].body.func = ast.Constant(value=PDC)
+    # real lambdas (this file is their source): the capture pass is interrupted while the names bound by the enclosing lambdas /
+    # comprehensions are on its stack; the parameter names are ones the checks capture as VARIABLES in later cases
+    def cap1():
+        return uds.Select(lambda G: G.jets.Select(lambda v: v.trks.Select(lambda c0: c0.pt > BOOM.cut)))
+
+    def cap2():
+        return uds.Where(lambda G0: [c1 for c1 in G0.jets if [G1 for G1 in c1.trks if G1.pt > BOOM.cut]])
+
+    def cap3():
+        return uds.SelectMany(lambda j: j.jets.Select(lambda t: [k for k in t.trks if k.pt > BOOM.cut]))
+
+    def cap4():
+        return uds.Select(lambda G2: G2.jets.Select(lambda x: x.trks.Select(lambda y: (lambda s: s > BOOM.cut)(y.pt))))
+
     calls = {
+        "captured-attribute-raises-three-lambdas-deep": cap1,
+        "captured-attribute-raises-inside-comprehensions": cap2,
+        "captured-attribute-raises-under-lambda-and-comprehension": cap3,
+        "captured-attribute-raises-inside-called-lambda": cap4,
         "tuple-target-in-nested-lambda": lambda: uds.Select("lambda e: e.jets.Select(lambda j: j.trks.Select(lambda t: [a for a, b in t.x]))"),
         "missing-required-parameter-three-lambdas-deep": lambda: tds.Select("lambda e: e.jets().Select(lambda j: e.jets().Select(lambda k: k.req(b=j.pt())))"),
         "non-boolean-where-on-typed-stream": lambda: tds.Where("lambda e: e.jets().Select(lambda j: j.pt())"),
